@@ -1140,17 +1140,38 @@ def good(self, bp):
     own = {b.name.lower() for b in self.boundprocs}
     return bp.name.lower() not in own
 def good2(self, bp, other):
-    return bp.name == other.name
+    return bp.name.lower() == other.name.lower()
+def bad3(self, bp):
+    own = {b.name for b in self.boundprocs}
+    return bp.name not in own
 """
 
 
 def _mixed_case_comparisons(fn: ast.AST):
     from .. import astq
     out = []
+
+    def raw_name(e) -> bool:
+        return isinstance(e, ast.Attribute) and e.attr == "name" and not (isinstance(e.value, ast.Attribute) and e.value.attr == "parent"
+                                                                           and "path" in ast.unparse(e).lower())
+
+    def raw_name_collection(e) -> bool:
+        for x in [e] + astq.expand_locals(e, fn):
+            for n in ast.walk(x):
+                if isinstance(n, (ast.SetComp, ast.ListComp, ast.GeneratorExp)) and raw_name(n.elt):
+                    return True
+                if isinstance(n, ast.DictComp) and raw_name(n.key):
+                    return True
+        return False
     for c in ast.walk(fn):
         if not (isinstance(c, ast.Compare) and len(c.ops) == 1 and isinstance(c.ops[0], (ast.In, ast.NotIn, ast.Eq, ast.NotEq))):
             continue
         l, r = c.left, c.comparators[0]
+        # two names as written (`bp.name not in {b.name for b in own}` / `a.name == b.name`) compare case-sensitively
+        if raw_name(l) and ((raw_name(r) and ast.unparse(l.value) != ast.unparse(r.value)) or
+                            (isinstance(c.ops[0], (ast.In, ast.NotIn)) and raw_name_collection(r))):
+            out.append((c, l, r))
+            continue
         for a, b in ((l, r), (r, l)):
             if isinstance(a, ast.Attribute) and a.attr == "name" and not isinstance(b, ast.Constant):
                 srcs = [b] + astq.expand_locals(b, fn)
@@ -1167,7 +1188,7 @@ def mixed_case_name_comparisons(ctx, rep, modules: Sequence[str] = ("sourceform"
     py = ctx.py
     ex = ast.parse(_MIXED_EXAMPLE)
     got = {f.name: len(_mixed_case_comparisons(f)) for f in ex.body if isinstance(f, ast.FunctionDef)}
-    if got != {"bad": 1, "bad2": 1, "good": 0, "good2": 0}:
+    if got != {"bad": 1, "bad2": 1, "good": 0, "good2": 0, "bad3": 1}:
         raise AnalysisError(f"mixed-case comparison matcher fails on its own example: {got}")
     n = k = 0
     for mod, fn in py.all_functions():
@@ -1179,7 +1200,8 @@ def mixed_case_name_comparisons(ctx, rep, modules: Sequence[str] = ("sourceform"
                 continue
             k += 1
             rep.ob(f"{py.qualname(fn)}: `{ast.unparse(c)[:60]}`", False,
-                   f"`{ast.unparse(a)}` is the name as written in the source, `{ast.unparse(b)[:40]}` is lower-cased: `Area` and `area` "
-                   f"do not compare equal, so an entity written with capitals is not recognised as the same one", py.nloc(c))
+                   f"`{ast.unparse(a)}` is the name as written in the source, `{ast.unparse(b)[:40]}` is "
+                   f"{'lower-cased' if '.lower()' in ast.unparse(b) or any('.lower()' in ast.unparse(x) for x in astq.expand_locals(b, fn)) else 'made of names as written too'}: "
+                   f"`Area` and `area` do not compare equal, so an entity written with capitals is not recognised as the same one", py.nloc(c))
     rep.ob(f"{label}names are lower-cased on both sides of a comparison", k == 0, f"{n} functions inspected", "ford/sourceform.py")
     return n
